@@ -78,6 +78,8 @@ def _case(draw, tier, names):
         steps.append(draw(st.sampled_from([["full"], ["full"], ["full"], ["partial", 2]])))
     steps.append(["full"])
     c["steps"] = steps
+    # sort-backed entries: in memory or via chunk files (cache=False must hold for both strategies)
+    c["buffersize"] = draw(st.sampled_from([None, None, 1, 2, 3]))
     return c
 
 
@@ -127,6 +129,9 @@ def check(case, ctx):
     e = catalog.get(case["entry"])
     rows = [[list(r) for r in t] for t in case["sources"]]
     kw = {"cache": False} if (e.has("sorted") or e.has("hashcache")) else {}
+    if e.has("sorted") and case.get("buffersize") is not None:
+        kw["buffersize"] = case["buffersize"]
+        kw["tempdir"] = ctx.tmpdir()
     ctx.label("entry:" + e.name)
 
     def fresh():
